@@ -5,7 +5,9 @@ import HioModel.Sched.Defs
 Counting lemmas (`*_count`): for every model function
 `#enter i (events) + #i (live ids of the inputs) = #exit i (events) + #i (live ids of the outputs)`,
 no distinct-id hypothesis.  Everything lives in `Hio.Sched.C02` to avoid clashes with sibling files.  Order lemmas (`*_order`): the ids of the zipper `pr ++ un` only ever
-lose elements in a cycle whose top-level leaves do not `extend`.
+lose elements in a cycle whose top-level leaves do not `extend`.  Nested order (`Fits`/`FitsL`, `*_fits`):
+a live doer tree embeds, order preserving, into its spec tree, for the whole life of every DoDoer,
+under the deep no-extend guard `RT.allStepsL stepsNoExtend` / `Spec.allStepsL stepsNoExtend`.
 -/
 namespace Hio.Sched.C02
 variable {τ : Type}
@@ -1145,5 +1147,468 @@ def gRaise : RT Nat :=
 def gFinish : RT Nat := .group 2 0 0 false [] [3] [.leaf 3 0 [⟨[], .ret none⟩]]
 /-- a DoDoer spec whose second kid fails to enter -/
 def gFailSpec : Spec Nat := .group 2 0 false [.leaf 3 .ok [y0], .leaf 4 .fail []] []
+
+/-! ### nested order invariant: a live doer tree embeds, order preserving, into its spec tree -/
+mutual
+/-- `Fits s rt`: the live doer `rt` stems from spec `s`: same id, same sort, and for a DoDoer the live
+deeds embed in order into the kids of the spec (recursively) -/
+def Fits : Spec τ → RT τ → Prop
+  | .leaf i _ _, rt => match rt with
+      | .leaf j _ _ => j = i
+      | .group .. => False
+  | .group i _ _ kids _, rt => match rt with
+      | .leaf .. => False
+      | .group j _ _ _ _ _ deeds => j = i ∧ FitsL kids deeds
+/-- `FitsL ss ds`: `ds` is, in order, a sub-selection of `ss` with every deed fitting its spec -/
+def FitsL : List (Spec τ) → List (RT τ) → Prop
+  | [], ds => ds = []
+  | s :: ss, ds => FitsL ss ds ∨ (match ds with
+      | [] => False
+      | d :: ds' => Fits s d ∧ FitsL ss ds')
+end
+
+theorem FitsL_nil : ∀ ss : List (Spec τ), FitsL ss []
+  | [] => by simp [FitsL]
+  | s :: ss => by unfold FitsL; exact Or.inl (FitsL_nil ss)
+
+theorem FitsL_cons_cons {s : Spec τ} {ss : List (Spec τ)} {d : RT τ} {ds : List (RT τ)}
+    (h1 : Fits s d) (h2 : FitsL ss ds) : FitsL (s :: ss) (d :: ds) := by
+  unfold FitsL; exact Or.inr ⟨h1, h2⟩
+
+theorem FitsL_skip {s : Spec τ} {ss : List (Spec τ)} {ds : List (RT τ)}
+    (h : FitsL ss ds) : FitsL (s :: ss) ds := by
+  unfold FitsL; exact Or.inl h
+
+theorem FitsL_sublist : ∀ (ss : List (Spec τ)) {ds' ds : List (RT τ)},
+    ds'.Sublist ds → FitsL ss ds → FitsL ss ds'
+  | [], ds', ds, hs, h => by
+      simp only [FitsL] at h ⊢
+      subst h
+      exact List.sublist_nil.mp hs
+  | s :: ss, ds', ds, hs, h => by
+      unfold FitsL at h
+      rcases h with h | h
+      · exact FitsL_skip (FitsL_sublist ss hs h)
+      · cases ds with
+        | nil => exact h.elim
+        | cons d ds0 =>
+            dsimp only at h
+            cases hs with
+            | cons _ hs' => exact FitsL_skip (FitsL_sublist ss hs' h.2)
+            | cons_cons _ hs' => exact FitsL_cons_cons h.1 (FitsL_sublist ss hs' h.2)
+
+theorem Fits_id : ∀ (s : Spec τ) (d : RT τ), Fits s d → d.id = s.id
+  | .leaf i _ _, .leaf j _ _, h => by simpa [Fits, RT.id, Spec.id] using h
+  | .leaf i _ _, .group .., h => by simp [Fits] at h
+  | .group i _ _ kids _, .leaf .., h => by simp [Fits] at h
+  | .group i _ _ kids _, .group j _ _ _ _ _ deeds, h => by
+      simp only [Fits] at h; simpa [RT.id, Spec.id] using h.1
+
+theorem FitsL_ids : ∀ (ss : List (Spec τ)) (ds : List (RT τ)),
+    FitsL ss ds → (ds.map RT.id).Sublist (ss.map Spec.id)
+  | [], ds, h => by simp only [FitsL] at h; subst h; simp
+  | s :: ss, ds, h => by
+      unfold FitsL at h
+      rcases h with h | h
+      · exact (FitsL_ids ss ds h).cons _
+      · cases ds with
+        | nil => exact h.elim
+        | cons d ds0 =>
+            dsimp only at h
+            simp only [List.map_cons, Fits_id s d h.1]
+            exact (FitsL_ids ss ds0 h.2).cons_cons _
+
+/-- replace one deed by another that fits whatever the first fitted -/
+theorem FitsL_replace {d d' : RT τ} (hd : ∀ s, Fits s d → Fits s d') (u : List (RT τ)) :
+    ∀ (ss : List (Spec τ)) (a : List (RT τ)), FitsL ss (a ++ d :: u) → FitsL ss (a ++ d' :: u)
+  | [], a, h => by simp [FitsL] at h
+  | s :: ss, a, h => by
+      unfold FitsL at h
+      rcases h with h | h
+      · exact FitsL_skip (FitsL_replace hd u ss a h)
+      · cases a with
+        | nil =>
+            simp only [List.nil_append] at h ⊢
+            exact FitsL_cons_cons (hd s h.1) h.2
+        | cons x a0 =>
+            simp only [List.cons_append] at h ⊢
+            exact FitsL_cons_cons h.1 (FitsL_replace hd u ss a0 h.2)
+
+theorem allStepsL_append (p : List (Step τ) → Bool) : ∀ (a b : List (RT τ)),
+    RT.allStepsL p (a ++ b) = (RT.allStepsL p a && RT.allStepsL p b)
+  | [], b => by simp [RT.allStepsL]
+  | d :: a, b => by simp [RT.allStepsL, allStepsL_append p a b, Bool.and_assoc]
+
+theorem allStepsL_sublist (p : List (Step τ) → Bool) {a b : List (RT τ)} (h : a.Sublist b) :
+    RT.allStepsL p b = true → RT.allStepsL p a = true := by
+  induction h with
+  | slnil => exact id
+  | cons d _ ih =>
+      intro hb; simp only [RT.allStepsL, Bool.and_eq_true] at hb; exact ih hb.2
+  | cons_cons d _ ih =>
+      intro hb; simp only [RT.allStepsL, Bool.and_eq_true] at hb ⊢; exact ⟨hb.1, ih hb.2⟩
+
+mutual
+theorem enterSpec_fits (now : τ) (p : List (Step τ) → Bool) : ∀ (s : Spec τ) (rt : RT τ),
+    (enterSpec now s).2.1 = some rt → Fits s rt ∧ (s.allSteps p = true → rt.allSteps p = true)
+  | .leaf i act steps, rt, h => by
+      cases act <;> simp [enterSpec] at h
+      subst h
+      simp [Fits, Spec.allSteps, RT.allSteps]
+  | .group i tock always kids pool, rt, h => by
+      have hk := enterList_fits now p kids
+      unfold enterSpec at h
+      generalize enterList now kids = R at h hk
+      obtain ⟨e, deeds, b⟩ := R
+      cases b <;> simp at h
+      subst h
+      simp only [Fits, Spec.allSteps, RT.allSteps, true_and]
+      exact hk
+theorem enterList_fits (now : τ) (p : List (Step τ) → Bool) : ∀ ss : List (Spec τ),
+    FitsL ss (enterList now ss).2.1
+    ∧ (Spec.allStepsL p ss = true → RT.allStepsL p (enterList now ss).2.1 = true)
+  | [] => by simp [enterList, FitsL, RT.allStepsL]
+  | s :: ss => by
+      have ih := enterList_fits now p ss
+      have hs := enterSpec_fits now p s
+      unfold enterList
+      generalize enterSpec now s = R at hs ⊢
+      obtain ⟨e, r, b⟩ := R
+      cases b with
+      | true => exact ⟨FitsL_nil _, fun _ => rfl⟩
+      | false =>
+          dsimp only at hs ⊢
+          generalize enterList now ss = R2 at ih ⊢
+          obtain ⟨e2, rs, b2⟩ := R2
+          dsimp only at ih ⊢
+          cases r with
+          | none =>
+              simp only [Option.toList_none, List.nil_append]
+              refine ⟨FitsL_skip ih.1, fun hp => ih.2 ?_⟩
+              simp only [Spec.allStepsL, Bool.and_eq_true] at hp; exact hp.2
+          | some rt =>
+              obtain ⟨hf, hg⟩ := hs rt rfl
+              simp only [Option.toList_some, List.singleton_append]
+              refine ⟨FitsL_cons_cons hf ih.1, fun hp => ?_⟩
+              simp only [Spec.allStepsL, Bool.and_eq_true] at hp
+              simp only [RT.allStepsL, Bool.and_eq_true]
+              exact ⟨hg hp.1, ih.2 hp.2⟩
+end
+
+theorem allStepsL_snoc (p : List (Step τ) → Bool) (a : List (RT τ)) (d : RT τ) :
+    RT.allStepsL p (a ++ [d]) = (RT.allStepsL p a && d.allSteps p) := by
+  simp [allStepsL_append, RT.allStepsL]
+
+theorem sub_app_cons {α} {a' a u' u : List α} (x : α) (h : a'.Sublist a) (hu : u'.Sublist u) :
+    (a' ++ u').Sublist (a ++ x :: u) := h.append (hu.cons x)
+
+theorem enterSpec_group_fail_fits (now : τ) (i : Id) (t : τ) (a : Bool) (kids pool : List (Spec τ))
+    (es : List (Ev τ)) (r : Option (RT τ))
+    (h : enterSpec now (.group i t a kids pool) = (es, r, true)) :
+    ∃ pre ds, es = pre ++ [ev i .exit now] ++ closeAllRev now ds ++ [ev i .exitEnd now]
+      ∧ FitsL kids ds := by
+  unfold enterSpec at h
+  have hf := (enterList_fits now stepsNoExtend kids).1
+  generalize enterList now kids = R at h hf
+  obtain ⟨e, deeds, b⟩ := R
+  cases b with
+  | false => simp at h
+  | true =>
+      simp only [Prod.mk.injEq] at h
+      refine ⟨[ev i (.flag false) now, ev i .enter now] ++ e ++ [ev i .abort now], deeds, ?_, hf⟩
+      rw [← h.1]; simp
+
+theorem removeOp_closes_sublist (now : τ) (sid : Id) (un : List (RT τ)) (ids : List Id) (c : Cyc τ) :
+    ∃ ds, (removeOp now sid un ids c).1
+            = ev sid .rmBeg now :: (closeAllRev now ds ++ [ev sid .rmEnd now])
+      ∧ ds.Sublist (c.pr ++ un) := by
+  refine ⟨_, by simp only [removeOp, List.singleton_append, List.cons_append]; rfl, ?_⟩
+  exact List.filter_sublist.append (List.filter_sublist.trans (liveUn_sublist c un))
+
+section Timed6
+variable [Add τ] [LE τ] [DecidableRel (α := τ) (· ≤ ·)] [OfNat τ 0] [BEq τ]
+
+mutual
+theorem resumeGroup_fits (now : τ) : ∀ rt : RT τ,
+    match rt with
+    | .leaf .. => True
+    | .group _ _ _ _ _ _ deeds =>
+        RT.allStepsL stepsNoExtend deeds = true →
+        ∀ rt' t, (resumeGroup now rt).2 = .yielded rt' t →
+          rt'.allSteps stepsNoExtend = true ∧ ∀ s, Fits s rt → Fits s rt'
+  | .leaf .. => trivial
+  | .group i r tock always pool doers deeds => by
+      have h := runCycle_fits now pool tock i deeds { doers := doers }
+      dsimp only
+      intro hg rt' t hy
+      specialize h hg rfl
+      unfold resumeGroup at hy
+      generalize runCycle pool now tock i deeds { doers := doers } = R at h hy
+      obtain ⟨es, un, c, x⟩ := R
+      cases x with
+      | some x => simp at hy
+      | none =>
+          dsimp only at hy h
+          split at hy
+          · simp only [Res.yielded.injEq] at hy
+            obtain ⟨hrt, _⟩ := hy
+            subst hrt
+            refine ⟨?_, ?_⟩
+            · simp only [RT.allSteps]
+              exact allStepsL_sublist _ (List.sublist_append_left _ _) h.1
+            · intro s hs
+              cases s with
+              | leaf => simp [Fits] at hs
+              | group i' t' a' kids pool' =>
+                  simp only [Fits] at hs ⊢
+                  exact ⟨hs.1, FitsL_sublist kids (List.sublist_append_left _ _) (h.2 kids hs.2)⟩
+          · simp at hy
+theorem runCycle_fits (now : τ) (pool : List (Spec τ)) (stock : τ) (sid : Id) :
+    ∀ (un : List (RT τ)) (c : Cyc τ),
+      RT.allStepsL stepsNoExtend un = true → RT.allStepsL stepsNoExtend c.pr = true →
+      RT.allStepsL stepsNoExtend
+          ((runCycle pool now stock sid un c).2.2.1.pr ++ (runCycle pool now stock sid un c).2.1) = true
+      ∧ ∀ ss, FitsL ss (c.pr ++ un) →
+          FitsL ss ((runCycle pool now stock sid un c).2.2.1.pr ++ (runCycle pool now stock sid un c).2.1)
+  | [], c, _, hpr => by
+      simp only [runCycle, List.append_nil]
+      exact ⟨hpr, fun ss h => h⟩
+  | .leaf i r steps :: un, c, hl, hpr => by
+      simp only [RT.allStepsL, RT.allSteps, Bool.and_eq_true] at hl
+      obtain ⟨hst, hun⟩ := hl
+      have ih := fun c => runCycle_fits now pool stock sid un c hun
+      have hh := headStep_noExtend steps hst
+      have ho := applyOps_noExtend pool now sid un (headStep steps).1.ops c hh.1
+      unfold runCycle
+      dsimp only
+      split
+      · have := ih c hpr
+        generalize runCycle pool now stock sid un c = R at this ⊢
+        obtain ⟨e2, un2, c2, x⟩ := R
+        exact ⟨this.1, fun ss h => this.2 ss
+          (FitsL_sublist ss (sub_app_cons _ (List.Sublist.refl _) (List.Sublist.refl _)) h)⟩
+      · split
+        · generalize applyOps pool now sid un (headStep steps).1.ops c = A at ho ⊢
+          obtain ⟨eo, c1, b⟩ := A
+          dsimp only at ho ⊢
+          obtain ⟨hb, hs⟩ := ho
+          subst hb
+          simp only [Bool.false_eq_true, if_false]
+          have hpr1 := allStepsL_sublist stepsNoExtend hs hpr
+          split
+          · refine ⟨?_, fun ss h => FitsL_sublist ss (sub_app_cons _ hs (liveUn_sublist c1 un)) h⟩
+            rw [allStepsL_append, hpr1, allStepsL_sublist _ (liveUn_sublist c1 un) hun]
+            rfl
+          · have := ih c1 hpr1
+            generalize runCycle pool now stock sid un c1 = R at this ⊢
+            obtain ⟨e2, un2, c2, x⟩ := R
+            exact ⟨this.1, fun ss h => this.2 ss
+              (FitsL_sublist ss (sub_app_cons _ hs (List.Sublist.refl _)) h)⟩
+          · rename_i t _
+            have := ih { pr := c1.pr ++ [.leaf i (nextDue now stock r t) (headStep steps).2],
+                         doers := c1.doers, gone := c1.gone }
+              (by rw [allStepsL_snoc, hpr1]; simp [RT.allSteps, hh.2])
+            generalize runCycle pool now stock sid un _ = R at this ⊢
+            obtain ⟨e2, un2, c2, x⟩ := R
+            refine ⟨this.1, fun ss h => this.2 ss ?_⟩
+            simp only [List.append_assoc, List.singleton_append]
+            refine FitsL_replace ?_ un ss c1.pr
+              (FitsL_sublist ss (hs.append (List.Sublist.refl _)) h)
+            intro s hs'
+            cases s with
+            | leaf => simp only [Fits] at hs' ⊢; exact hs'
+            | group => simp [Fits] at hs'
+        · have := ih { pr := c.pr ++ [.leaf i r steps], doers := c.doers, gone := c.gone }
+            (by rw [allStepsL_snoc, hpr]; simp [RT.allSteps, hst])
+          generalize runCycle pool now stock sid un _ = R at this ⊢
+          obtain ⟨e2, un2, c2, x⟩ := R
+          refine ⟨this.1, fun ss h => this.2 ss ?_⟩
+          simpa only [List.append_assoc, List.singleton_append] using h
+  | .group i r tock always gpool doers deeds :: un, c, hl, hpr => by
+      simp only [RT.allStepsL, RT.allSteps, Bool.and_eq_true] at hl
+      obtain ⟨hdeeds, hun⟩ := hl
+      have ih := fun c => runCycle_fits now pool stock sid un c hun
+      have hg := resumeGroup_fits now (.group i r tock always gpool doers deeds)
+      dsimp only at hg
+      specialize hg hdeeds
+      have hy := resumeGroup_yielded_shape now i r tock always gpool doers deeds
+      unfold runCycle
+      dsimp only
+      split
+      · have := ih c hpr
+        generalize runCycle pool now stock sid un c = R at this ⊢
+        obtain ⟨e2, un2, c2, x⟩ := R
+        exact ⟨this.1, fun ss h => this.2 ss
+          (FitsL_sublist ss (sub_app_cons _ (List.Sublist.refl _) (List.Sublist.refl _)) h)⟩
+      · split
+        · generalize resumeGroup now (.group i r tock always gpool doers deeds) = G at hg hy ⊢
+          obtain ⟨eg, res⟩ := G
+          cases res with
+          | raised x =>
+              dsimp only
+              refine ⟨?_, fun ss h =>
+                FitsL_sublist ss (sub_app_cons _ (List.Sublist.refl _) (liveUn_sublist c un)) h⟩
+              rw [allStepsL_append, hpr, allStepsL_sublist _ (liveUn_sublist c un) hun]
+              rfl
+          | finished =>
+              dsimp only
+              have := ih c hpr
+              generalize runCycle pool now stock sid un c = R at this ⊢
+              obtain ⟨e2, un2, c2, x⟩ := R
+              exact ⟨this.1, fun ss h => this.2 ss
+                (FitsL_sublist ss (sub_app_cons _ (List.Sublist.refl _) (List.Sublist.refl _)) h)⟩
+          | yielded rt t =>
+              dsimp only
+              obtain ⟨hrt, hfit⟩ := hg rt t rfl
+              obtain ⟨d', ds', hshape⟩ := hy eg rt t rfl
+              subst hshape
+              have := ih { pr := c.pr ++ [(RT.group i r tock always gpool d' ds').setRetyme
+                              (nextDue now stock r (some t))],
+                           doers := c.doers, gone := c.gone }
+                (by rw [allStepsL_snoc, hpr]; simpa [RT.setRetyme, RT.allSteps] using hrt)
+              generalize runCycle pool now stock sid un _ = R at this ⊢
+              obtain ⟨e2, un2, c2, x⟩ := R
+              refine ⟨this.1, fun ss h => this.2 ss ?_⟩
+              simp only [List.append_assoc, List.singleton_append]
+              refine FitsL_replace ?_ un ss c.pr h
+              intro s hs'
+              have := hfit s hs'
+              cases s with
+              | leaf => simp [Fits] at this
+              | group => simp only [Fits, RT.setRetyme] at this ⊢; exact this
+        · have := ih { pr := c.pr ++ [.group i r tock always gpool doers deeds], doers := c.doers, gone := c.gone }
+            (by rw [allStepsL_snoc, hpr]; simp [RT.allSteps, hdeeds])
+          generalize runCycle pool now stock sid un _ = R at this ⊢
+          obtain ⟨e2, un2, c2, x⟩ := R
+          refine ⟨this.1, fun ss h => this.2 ss ?_⟩
+          simpa only [List.append_assoc, List.singleton_append] using h
+end
+
+theorem resumeGroup_raised_fits (now : τ) (i : Id) (r tock : τ) (always : Bool) (pool : List (Spec τ))
+    (doers : List Id) (deeds : List (RT τ)) (es : List (Ev τ)) (x : Exn) (kids : List (Spec τ))
+    (hg : RT.allStepsL stepsNoExtend deeds = true) (hf : FitsL kids deeds)
+    (h : resumeGroup now (.group i r tock always pool doers deeds) = (es, .raised x)) :
+    ∃ pre ds, es = pre ++ [ev i .exit now] ++ closeAllRev now ds ++ [ev i .exitEnd now]
+      ∧ FitsL kids ds ∧ RT.allStepsL stepsNoExtend ds = true := by
+  unfold resumeGroup at h
+  have hc := runCycle_fits now pool tock i deeds { doers := doers } hg rfl
+  generalize runCycle pool now tock i deeds { doers := doers } = R at h hc
+  obtain ⟨e, un, c, ox⟩ := R
+  cases ox with
+  | none =>
+      dsimp only at h
+      split at h <;> simp at h
+  | some y =>
+      simp only [Prod.mk.injEq] at h
+      refine ⟨[ev i .recur now] ++ e ++ abortEvs i y now, c.pr ++ un, ?_, hc.2 kids hf, hc.1⟩
+      rw [← h.1]
+
+theorem doLoop_fits (pool : List (Spec τ)) (tock : τ) (stopAt : Option τ) (ss : List (Spec τ)) :
+    ∀ (fuel n : Nat) (now : τ) (deeds : List (RT τ)) (doers : List Id),
+      RT.allStepsL stepsNoExtend deeds = true → FitsL ss deeds →
+    ∃ pre ds, (doLoop pool tock stopAt fuel n now deeds doers).evs
+                = pre ++ stopEvs (doLoop pool tock stopAt fuel n now deeds doers).tyme ds
+      ∧ FitsL ss ds ∧ RT.allStepsL stepsNoExtend ds = true
+  | 0, n, now, deeds, doers, hg, hf => ⟨[], deeds, by simp [doLoop], hf, hg⟩
+  | fuel+1, n, now, deeds, doers, hg, hf => by
+      have h := runCycle_fits now pool tock 0 deeds { doers := doers } hg rfl
+      have hn := runCycle_none_un pool now tock 0 deeds { doers := doers }
+      unfold doLoop
+      generalize runCycle pool now tock 0 deeds { doers := doers } = R at h hn ⊢
+      obtain ⟨es, un, c, x⟩ := R
+      simp only [List.nil_append] at h
+      cases x with
+      | some x => exact ⟨es, c.pr ++ un, rfl, h.2 ss hf, h.1⟩
+      | none =>
+          simp at hn
+          subst hn
+          simp only [List.append_nil] at h
+          dsimp only
+          split
+          · exact ⟨es, [], rfl, FitsL_nil _, rfl⟩
+          · have ih := doLoop_fits pool tock stopAt ss fuel (n+1) (now + tock) c.pr c.doers h.1 (h.2 ss hf)
+            split <;> (try split)
+            all_goals first
+              | exact ⟨es, c.pr, rfl, h.2 ss hf, h.1⟩
+              | (obtain ⟨pre, ds, h1, h2⟩ := ih
+                 exact ⟨es ++ pre, ds, by simp only [h1, List.append_assoc], h2⟩)
+
+theorem doistDo_fits (pool : List (Spec τ)) (tock start : τ) (limit : Option τ) (fuel : Nat)
+    (specs : List (Spec τ)) (hg : Spec.allStepsL stepsNoExtend specs = true) :
+    ∃ pre ds, (doistDo pool tock start limit fuel specs).evs
+                = pre ++ stopEvs (doistDo pool tock start limit fuel specs).tyme ds
+      ∧ FitsL specs ds ∧ RT.allStepsL stepsNoExtend ds = true := by
+  have h := enterList_fits start stepsNoExtend specs
+  unfold doistDo
+  generalize enterList start specs = R at h ⊢
+  obtain ⟨es, deeds, b⟩ := R
+  cases b with
+  | true => exact ⟨es, deeds, rfl, h.1, h.2 hg⟩
+  | false =>
+      dsimp only at h ⊢
+      obtain ⟨pre, ds, h1, h2⟩ := doLoop_fits pool tock (limit.map (start + ·)) specs fuel 0 start deeds
+        (specs.map Spec.id) (h.2 hg) h.1
+      exact ⟨es ++ pre, ds, by simp only [h1, List.append_assoc], h2⟩
+end Timed6
+
+theorem FitsL_mem : ∀ (ss : List (Spec τ)) (ds : List (RT τ)), FitsL ss ds →
+    ∀ d, d ∈ ds → ∃ s, s ∈ ss ∧ Fits s d
+  | [], ds, h, d, hd => by simp only [FitsL] at h; subst h; cases hd
+  | s :: ss, ds, h, d, hd => by
+      unfold FitsL at h
+      rcases h with h | h
+      · obtain ⟨s', hs', hf⟩ := FitsL_mem ss ds h d hd
+        exact ⟨s', List.mem_cons_of_mem _ hs', hf⟩
+      · cases ds with
+        | nil => exact h.elim
+        | cons d0 ds0 =>
+            dsimp only at h
+            rcases List.mem_cons.mp hd with rfl | hd'
+            · exact ⟨s, List.mem_cons_self, h.1⟩
+            · obtain ⟨s', hs', hf⟩ := FitsL_mem ss ds0 h.2 d hd'
+              exact ⟨s', List.mem_cons_of_mem _ hs', hf⟩
+
+theorem Fits_group_inv (i : Id) (t : τ) (a : Bool) (kids pool : List (Spec τ)) (g : RT τ)
+    (h : Fits (.group i t a kids pool) g) :
+    ∃ r t' a' p d deeds, g = .group i r t' a' p d deeds ∧ FitsL kids deeds := by
+  cases g with
+  | leaf => simp [Fits] at h
+  | group j r t' a' p d deeds =>
+      simp only [Fits] at h
+      obtain ⟨rfl, hf⟩ := h
+      exact ⟨r, t', a', p, d, deeds, rfl, hf⟩
+
+/-- two-level program, deep guard holds; in cycle 2 leaf 6 (inside DoDoer 4 inside DoDoer 2) removes its
+sibling 5 and raises -/
+def nestSpecs : List (Spec Nat) :=
+  [.leaf 1 .ok [y0, y0, y0],
+   .group 2 0 false
+     [.leaf 3 .ok [y0, y0, y0],
+      .group 4 0 false [.leaf 5 .ok [y0, y0], .leaf 6 .ok [y0, ⟨[.remove [5]], .raise .err⟩], .leaf 7 .ok [y0, y0]] [],
+      .leaf 8 .ok [y0, y0, y0]] [],
+   .leaf 9 .ok [y0, y0, y0]]
+/-- kids of an outer DoDoer whose inner DoDoer 4 raises at its first resume -/
+def nestKids : List (Spec Nat) :=
+  [.leaf 3 .ok [y0],
+   .group 4 0 false [.leaf 5 .ok [y0, y0], .leaf 6 .ok [⟨[.remove [5]], .raise .err⟩], .leaf 7 .ok [y0, y0]] [],
+   .leaf 8 .ok [y0]]
+/-- the deeds `enterList 0 nestKids` produces -/
+def nestDeeds : List (RT Nat) :=
+  [.leaf 3 0 [y0],
+   .group 4 0 0 false [] [5, 6, 7]
+     [.leaf 5 0 [y0, y0], .leaf 6 0 [⟨[.remove [5]], .raise .err⟩], .leaf 7 0 [y0, y0]],
+   .leaf 8 0 [y0]]
+
+
+theorem topNoExtend_of_deep : ∀ specs : List (Spec τ),
+    Spec.allStepsL stepsNoExtend specs = true → topNoExtend specs = true
+  | [], _ => rfl
+  | s :: ss, h => by
+      simp only [Spec.allStepsL, Bool.and_eq_true] at h
+      simp only [topNoExtend, List.all_cons, Bool.and_eq_true]
+      refine ⟨?_, topNoExtend_of_deep ss h.2⟩
+      cases s with
+      | leaf i act steps => simpa [specNoExtend, Spec.allSteps] using h.1
+      | group => rfl
 
 end Hio.Sched.C02
